@@ -25,3 +25,13 @@ def labelled(tag, vocabulary, _seen={}):
     if tag.uuid not in _seen:
         _seen[tag.uuid] = vocabulary.index(tag)  # G.1: mutable default argument keyed without `vocabulary`
     return _seen[tag.uuid]
+
+
+_RANGES = {}
+
+
+def axis_range(array, dim):
+    key = (id(array), dim)
+    if key not in _RANGES:
+        _RANGES[key] = (array[dim].min(), array[dim].max())  # G.1: keyed by the identity of a possibly temporary object
+    return _RANGES[key]
